@@ -163,6 +163,18 @@ def run_array(case):
         require(b.tobytes() == ref_other, 'Array.byteswap does not convert to the other byte order', got=b.tobytes().hex()[:80], expected=ref_other.hex()[:80])
         b.byteswap()
         require(b.tobytes() == ref, 'Array.byteswap twice is not the identity')
+        # with trailing bits (not a whole item, maybe not whole bytes): the items are swapped, the trailing bits stay what and where they are
+        tr = ['1', '101', '0000000', '10110011', '1' * 9][(len(vals) + nb) % 5]
+        if len(tr) < nb:
+            c = make()
+            c.data.append('0b' + tr)
+            before_len = len(c.data)
+            c.byteswap()
+            want = ''.join(format(x, '08b') for x in ref_other) + tr
+            require(c.data.bin == want and len(c.data) == before_len and c.trailing_bits.bin == tr, 'Array.byteswap with trailing bits must swap the items and leave the trailing bits alone',
+                    got=c.data.bin[-40:], expected=want[-40:], trailing=tr)
+            c.byteswap()
+            require(c.data.bin == ''.join(format(x, '08b') for x in ref) + tr, 'Array.byteswap twice (with trailing bits) is not the identity')
     # same bytes as the array module when the platform item size is the standard one
     if e in '=@':
         try:
